@@ -913,6 +913,10 @@ type overlapSample struct {
 // is judged by the ordinary initiator oracle: in particular the mechanism in
 // its <auth/> must have been offered to THAT session.
 func runOverlap(c *core.Case, r *rand.Rand) {
+	if r.Intn(3) == 0 {
+		runSliced(c, r)
+		return
+	}
 	c.Count("overlap_pairs", 1)
 	client := pickSubset(r, saslpeer.Names[:3], 2)
 	mk := func(advd []string) *initScenario {
@@ -998,6 +1002,68 @@ func runOverlap(c *core.Case, r *rand.Rand) {
 	}
 	c.Sample(smp)
 }
+
+// runSliced negotiates two initiating sessions one after the other through two
+// SASL features that an application built from overlapping parts of ONE slice
+// of mechanisms: a strict feature from the first k entries, a lax one from all
+// of them.  The lax feature logs in first, against a receiver that offers only
+// mechanisms the strict feature does not have; then the strict feature meets
+// a receiver that offers everything.  Each session is judged by the ordinary
+// initiator oracle: the mechanism of its <auth/> must be one that its own
+// feature was configured with.
+func runSliced(c *core.Case, r *rand.Rand) {
+	c.Count("sliced_pairs", 1)
+	p := r.Perm(3)
+	all := []string{saslpeer.Names[p[0]], saslpeer.Names[p[1]], saslpeer.Names[p[2]]}
+	k := 1 + r.Intn(2)
+	mk := func(client, advd []string) *initScenario {
+		return &initScenario{Role: "initiator", ClientMechs: append([]string{}, client...), Advertised: advd, Password: "pw1", ServerPass: "pw1", Iter: 4 + r.Intn(12), Script: []string{"L", "L", "L"}}
+	}
+	la := pickSubset(r, all[k:], 1)
+	a := &overlapSlot{sc: mk(all, la), res: &negResult{}}
+	b := &overlapSlot{sc: mk(all[:k], append([]string{}, saslpeer.Names[:3]...)), res: &negResult{}}
+	smp := &overlapSample{Role: "initiator-sliced", A: a.sc, B: b.sc}
+	c.Sample(smp)
+	a.adv = &initAdv{sc: a.sc, r: r}
+	b.adv = &initAdv{sc: b.sc, r: r}
+	mechs := make([]sasl.Mechanism, 0, len(all))
+	for _, n := range all {
+		mechs = append(mechs, saslpeer.Mechanisms[n])
+	}
+	slots := &sync.Map{}
+	strict := wrapShared(xmpp.SASL("", "pw1", mechs[:k]...), slots)
+	lax := wrapShared(xmpp.SASL("", "pw1", mechs...), slots)
+	origin := jid.MustParse(user + "@" + domain)
+	location := jid.MustParse(domain)
+	connA := bufconn.NewScripted(func(w []byte) ([]byte, bool) { return a.adv.feed(w, true) })
+	connB := bufconn.NewScripted(func(w []byte) ([]byte, bool) { return b.adv.feed(w, true) })
+	slots.Store(net.Conn(connA), a)
+	slots.Store(net.Conn(connB), b)
+	c.Guard("NewSession(lax)", func() {
+		a.s, a.err = xmpp.NewSession(context.Background(), location, origin, connA, xmpp.Secure, negotiatorFor(lax))
+	})
+	if len(a.adv.authMechs) > 0 {
+		c.Count("sliced_lax_feature_sent_auth", 1)
+	}
+	c.Guard("NewSession(strict)", func() {
+		b.s, b.err = xmpp.NewSession(context.Background(), location, origin, connB, xmpp.Secure, negotiatorFor(strict))
+	})
+	if len(b.adv.authMechs) > 0 {
+		c.Count("sliced_strict_feature_sent_auth_after_lax_login", 1)
+	}
+	connA.Close()
+	connB.Close()
+	for _, sl := range []*overlapSlot{a, b} {
+		c.Count("init_cases", 1)
+		for _, e := range sl.adv.delivered() {
+			c.Count("init_action_"+e.Kind, 1)
+		}
+		sl.sc.Log = sl.adv.delivered()
+		judgeInit(c, sl.sc, sl.adv, sl.res, sl.s, sl.err)
+	}
+	c.Sample(smp)
+}
+
 
 func negotiatorFor(f ...xmpp.StreamFeature) xmpp.Negotiator {
 	return xmpp.NewNegotiator(func(*xmpp.Session, *xmpp.StreamConfig) xmpp.StreamConfig {
@@ -2176,6 +2242,7 @@ func Prop() *core.Prop {
 		"init_features_sasl_extra_after", "init_features_sasl_extra_before", "init_features_sasl_extra_both",
 		"init_features_sasl_extra_first_choice_not_offered",
 		"overlap_pairs_with_different_offers", "overlap_a_held_after_parse", "overlap_b_sent_auth_while_a_held",
+		"sliced_pairs", "sliced_lax_feature_sent_auth", "sliced_strict_feature_sent_auth_after_lax_login",
 	}
 	for _, k := range initAlphabet {
 		req = append(req, "init_action_"+k)
@@ -2186,7 +2253,7 @@ func Prop() *core.Prop {
 	return &core.Prop{
 		ID:    "C03",
 		Level: core.Exploration,
-		Rule:  "even cases: the library initiates (state Secure, SASL feature wrapped so that the mask returned by Negotiate is seen) against a server adversary that at each step sends the legitimate next message (computed with mellium.im/sasl's NewServer; own RFC 5802 server for the -PLUS variants) in its canonical carrier, in the other carrier, or one of 21 deviations (premature/duplicate/garbage/undecodable <success/>, empty/garbage/undecodable/replayed <challenge/>, <failure/>, <abort/>, foreign-namespace elements, stream error, text, whitespace, comment, EOF, stream end); one case in eight runs over a real TLS pair so that the channel-binding variants complete. Odd cases: the library receives (SASLServer with a logging permission callback whose verdict policy is match/always/never/flip) from a client adversary using sasl.NewClient: legitimate <auth/>, wrong password, unoffered/unknown/missing/lower-case mechanism, empty/=/undecodable/malformed payloads, <response/> before <auth/>, <abort/>, server-only elements, foreign elements, text, EOF. Quick additionally enumerates every initiator script of length <= 2 over the 33 actions for PLAIN, SCRAM-SHA-1 and SCRAM-SHA-256, once with the feature xmpp.SASL returns and once with the feature xmpp.SASLServer returns on the initiated session (the role follows the direction of the stream; the actions include the initiator-only elements <auth/> and <response/> sent by the receiver). Thorough additionally enumerates every initiator script of length <= 3 for PLAIN, SCRAM-SHA-1, SCRAM-SHA-256 and every receiver script of length <= 2 for three server configurations and two verdict policies. Oracle: Authn (Negotiate mask with nil error, or Session.State()) only if the log of what the peer had delivered when Negotiate returned is accepted by the acceptor; the mechanism in <auth/> is in advertised ∩ configured; <success/> is written only for an accepting exchange; an unoffered mechanism is only refused. distinct = (role, mechanism family, delivered action path, verdict policy, Authn, accepting).",
+		Rule:  "even cases: the library initiates (state Secure, SASL feature wrapped so that the mask returned by Negotiate is seen) against a server adversary that at each step sends the legitimate next message (computed with mellium.im/sasl's NewServer; own RFC 5802 server for the -PLUS variants) in its canonical carrier, in the other carrier, or one of 21 deviations (premature/duplicate/garbage/undecodable <success/>, empty/garbage/undecodable/replayed <challenge/>, <failure/>, <abort/>, foreign-namespace elements, stream error, text, whitespace, comment, EOF, stream end); one case in eight runs over a real TLS pair so that the channel-binding variants complete. Odd cases: the library receives (SASLServer with a logging permission callback whose verdict policy is match/always/never/flip) from a client adversary using sasl.NewClient: legitimate <auth/>, wrong password, unoffered/unknown/missing/lower-case mechanism, empty/=/undecodable/malformed payloads, <response/> before <auth/>, <abort/>, server-only elements, foreign elements, text, EOF. Quick additionally enumerates every initiator script of length <= 2 over the 33 actions for PLAIN, SCRAM-SHA-1 and SCRAM-SHA-256, once with the feature xmpp.SASL returns and once with the feature xmpp.SASLServer returns on the initiated session (the role follows the direction of the stream; the actions include the initiator-only elements <auth/> and <response/> sent by the receiver). Thorough additionally enumerates every initiator script of length <= 3 for PLAIN, SCRAM-SHA-1, SCRAM-SHA-256 and every receiver script of length <= 2 for three server configurations and two verdict policies. Oracle: Authn (Negotiate mask with nil error, or Session.State()) only if the log of what the peer had delivered when Negotiate returned is accepted by the acceptor; the mechanism in <auth/> is in advertised ∩ configured; <success/> is written only for an accepting exchange; an unoffered mechanism is only refused. One overlap case in three instead runs two sessions one after the other through a strict and a lax SASL feature built from overlapping parts of one slice of mechanisms (the lax one first, against a receiver offering only what the strict one lacks; then the strict one against a receiver offering everything): every <auth/> names a mechanism of its own feature. distinct = (role, mechanism family, delivered action path, verdict policy, Authn, accepting).",
 		Assumptions: []string{
 			"mellium.im/sasl computes correct SCRAM/PLAIN messages (the peers use it to know the legitimate next message)",
 			"a legitimate mechanism message carried by <success/> instead of <challenge/> (or the reverse) is not by itself a deviation; what is demanded is that all legitimate messages were delivered in order and that the last SASL element delivered before the decision was <success/>",
